@@ -197,7 +197,7 @@ class Prop:
             sents.append(gen.sentence('AIVDM', 1, 1, '', 'AB'[k % 2], gen.armor(b8)[0], 0))
         assert all(len(x) == 63 for x in sents)
         lines = [sents[i % 7] for i in range(16390)]
-        for pos, bad in ((5, b'!AIVDM,' + b'x' * 56), (16383, b'$' + b'G' * 62), (16384, b'\\' + b's' * 62)):
+        for pos, bad in ((5, b'!AIVDM,' + b'x' * 56), (100, b'$' + b'G' * 62), (9000, b'\\' + b's' * 62)):
             lines[pos] = bad
         with tempfile.NamedTemporaryFile(suffix='.nmea') as f:
             f.write(b''.join(l + b'\n' for l in lines))
@@ -210,7 +210,7 @@ class Prop:
                     got = [bytes(m.raw) for m in mk()]
                 except Exception as e:  # noqa
                     got = impl.err(e)
-                exp = [l for i, l in enumerate(lines) if i not in (5, 16383, 16384)]
+                exp = [l for i, l in enumerate(lines) if i not in (5, 100, 9000)]
                 if got != exp:
                     first = next((i for i, (a, b) in enumerate(zip(got, exp)) if a != b), min(len(got), len(exp))) \
                         if isinstance(got, list) else -1
